@@ -59,7 +59,7 @@ from ..engine.util import canon, method_call, u
 from ._c09_util import (
     MutationSummary, OrderedSymExec, decided, entails_le, entails_lt, first_call, func_params, index_of,
     is_extreme_of, loop_paths, lower_bounded, none_test, ordered_paths, pre_name, rename_comp_vars,
-    self_attr_root, subscripts_of, truth, upper_bounded, variants, writes, zero,
+    selection, self_attr_root, subscripts_of, truth, upper_bounded, variants, writes, zero,
 )
 
 BUF = "timeseries._ringbuffer.buffer"
@@ -1203,7 +1203,7 @@ def check_count(run: Run, prog: Program) -> None:  # noqa: C901
     run.analysed(cv.qual)
     s_pos, e_pos = f"self.to_internal_index({OLDEST_F})", f"self.to_internal_index({NEWEST_F})"
     n = 0
-    for p in ordered_paths(prog, cv, inline=False):
+    for p in ordered_paths(prog, cv):
         if p.exit != "return":
             continue
         n += 1
@@ -1396,6 +1396,59 @@ def check_gap_cases(run: Run, prog: Program) -> None:  # noqa: C901
         raise AnalysisError(f"{fn.qual}: only {n} completing paths")
 
 
+def _gap_lookup(p: Path, ts: str) -> tuple[str, set[str], bool] | None:
+    """Which expression on this path plays the role "the first gap of self._gaps that contains T (None / nothing
+    when there is none)", which expressions are its position, and whether the path found one.  The lookup may
+    be written with next(filter(...)) / next(generator) over the gaps or their enumeration, a list of hits, or
+    an explicit search loop with break (folded to the generator form by the path walker)."""
+    want = f"E.contains({ts})"
+    seq = "self._gaps"
+
+    def first_of(x: ast.AST) -> tuple[str, ast.AST | None] | None:
+        """x == next(SEL, default) or SEL_as_list[0]  ->  (what SEL yields, default)"""
+        if isinstance(x, ast.Call) and u(x.func) == "next" and len(x.args) == 2 and not x.keywords:
+            sel = selection(x.args[0], seq)
+            return (sel[0], x.args[1]) if sel is not None and sel[1] == want else None
+        if isinstance(x, ast.Subscript) and u(x.slice) == "0":
+            sel = selection(x.value, seq)
+            return (sel[0], None) if sel is not None and sel[1] == want else None
+        return None
+
+    def as_gap(x: ast.AST | None) -> set[str] | None:
+        if x is None:
+            return None
+        if isinstance(x, ast.Subscript) and u(x.slice) == "1":
+            r = first_of(x.value)
+            if r is not None and r[0] == "(I, E)" and (r[1] is None or (
+                    isinstance(r[1], ast.Tuple) and len(r[1].elts) == 2 and u(r[1].elts[1]) == "None")):
+                return {u(ast.Subscript(value=x.value, slice=ast.Constant(0), ctx=ast.Load()))}
+        r = first_of(x)
+        if r is not None and r[0] == "E" and (r[1] is None or u(r[1]) == "None"):
+            return set()
+        return None
+
+    for e in p.effects:
+        if e.kind != "cond":
+            continue
+        key, outcome = e.orig  # type: ignore[misc]
+        if not isinstance(key, tuple):
+            continue
+        if key[0] == "is" and "None" in key[1] and isinstance(e.node, ast.Compare):
+            x = next((y for y in [e.node.left] + e.node.comparators if u(y) != "None"), None)
+            idx = as_gap(x)
+            if idx is not None:
+                return u(x), idx, not outcome
+        elif key[0] == "truthy":
+            idx = as_gap(e.node)
+            if idx is not None:
+                return u(e.node), idx, bool(outcome)
+            sel = selection(e.node, seq)
+            if sel is not None and sel[1] == want and sel[0] in ("(I, E)", "E"):
+                hit = f"{u(e.node)}[0]"
+                return (f"{hit}[1]", {f"{hit}[0]"}, bool(outcome)) if sel[0] == "(I, E)" else (hit, set(), bool(outcome))
+    return None
+
+
 def check_remove_gap(run: Run, prog: Program) -> None:  # noqa: C901
     """C09.GAP: _remove_gap(T) turns the gap [s, e) that contains T into [s, T) and [T + period, e), dropping empty
     pieces, and touches nothing else."""
@@ -1408,49 +1461,49 @@ def check_remove_gap(run: Run, prog: Program) -> None:  # noqa: C901
         if p.exit == "raise":
             continue
         where = _where(fn, p)
-        tests = [e for e in p.effects if e.kind == "cond" and isinstance(e.orig[0], tuple)  # type: ignore[index]
-                 and e.orig[0][0] == "is" and "None" in e.orig[0][1]]  # type: ignore[index]
-        g_ast = None
-        if tests and isinstance(tests[0].node, ast.Compare):
-            g_ast = next((x for x in [tests[0].node.left] + tests[0].node.comparators if u(x) != "None"), None)
-        # the gap is the first one that contains T (None when there is none)
-        ok = isinstance(g_ast, ast.Subscript) and u(g_ast.slice) == "1" and isinstance(g_ast.value, ast.Call) \
-            and u(g_ast.value.func) == "next" and len(g_ast.value.args) == 2
-        if ok:
-            flt, dflt = g_ast.value.args  # type: ignore[union-attr]
-            ok = isinstance(flt, ast.Call) and u(flt.func) == "filter" and len(flt.args) == 2 \
-                and isinstance(flt.args[0], ast.Lambda) and len(flt.args[0].args.args) == 1 \
-                and u(flt.args[0].body) == f"{flt.args[0].args.args[0].arg}[1].contains({ts})" \
-                and u(flt.args[1]) == "enumerate(self._gaps)" \
-                and isinstance(dflt, ast.Tuple) and len(dflt.elts) == 2 and u(dflt.elts[1]) == "None"
-        if not ok:
+        look = _gap_lookup(p, ts)
+        if look is None:
             run.violation("C09.GAP", fn.qual, "gap = first gap of self._gaps that contains T, else None",
                           "_remove_gap does not work on the (first) recorded gap that contains the timestamp, or does "
-                          f"not examine whether there is one (found `{u(g_ast)[:80]}`)", **where)
+                          "not examine whether there is one", **where)
             continue
-        assert g_ast is not None
-        g = u(g_ast)
-        idx = u(ast.Subscript(value=g_ast.value, slice=ast.Constant(0), ctx=ast.Load()))  # type: ignore[attr-defined]
+        g, idx_texts, found = look
         ops = _gap_ops(p)
         ws = writes(p)
-        if tests[0].orig[1]:  # type: ignore[index]
+        if not found:
             run.check(not ws and not any(ops.values()), "C09.GAP", fn.qual, "no gap contains T: nothing to do",
                       "the gap list is changed although no gap contains the timestamp", **where)
             continue
+
+        def drops(x: ast.AST) -> bool:
+            """x removes the found gap from the list: del gaps[its index] / gaps.pop(its index) / gaps.remove(it)"""
+            k = None
+            if isinstance(x, ast.Subscript) and u(x.value) == "self._gaps":
+                k = x.slice
+            elif isinstance(x, ast.Call) and method_call(x, "self._gaps", "pop") and len(x.args) == 1:
+                k = x.args[0]
+            elif isinstance(x, ast.Call) and method_call(x, "self._gaps", "remove") and len(x.args) == 1:
+                return u(x.args[0]) == g
+            if k is None:
+                return False
+            if u(k) in idx_texts or u(k) == f"self._gaps.index({g})":
+                return True
+            sel = selection(k.args[0], "self._gaps") if isinstance(k, ast.Call) and u(k.func) == "next" and k.args else None
+            return sel == ("I", f"E.contains({ts})")
+
         n += 1
         s0, e0 = f"{g}.start", f"{g}.end"
         left_empty = decided(p, ("==", frozenset({s0, ts})))
         right_tests = [decided(p, ("==", frozenset({e0, t}))) for t in variants(after)] + [
             decided(p, ("==", frozenset({f"{e0} - {STEP}", ts})))]
         right_empty = True if True in right_tests else (False if False in right_tests else None)
-        deleted = any(k == "other" and u(x) == f"self._gaps[{idx}]" for k, v in ops.items() for _i, x in v
-                      if isinstance(x, ast.Subscript))
+        deleted = any(drops(x) for _i, x in ops["other"])
         pieces: list[tuple[Any, Any]] = []
         copies = [x for _i, x in ops["append"]]
         first_store = min([i for i, t, _v, _l in ws if u(t) in (s0, e0)], default=10 ** 9)
         understood = all(u(t) in (s0, e0) or any(u(t) in (f"{u(c)}.start", f"{u(c)}.end") for c in copies)
                          for _i, t, _v, _l in ws) and not ops["assign"] and not ops["remove"] \
-            and all(u(x) == f"self._gaps[{idx}]" for _i, x in ops["other"])
+            and all(drops(x) for _i, x in ops["other"])
         for c in copies:
             took = first_call(p, u(c))
             if not (isinstance(c, ast.Call) and u(c.func) in ("deepcopy", "copy.deepcopy", "copy.copy", "copy")
